@@ -321,7 +321,7 @@ func RunC17(cfg Config) (*ShardResult, error) {
 	for di, d := range docs {
 		dh := canon.HashBytes(d.Data)
 		plans := plansFor(d, lim, root.Derive("plans-"+d.Name, di))
-		for _, reader := range corpus.ReaderConfigs(d.Format) {
+		for ri, reader := range corpus.ReaderConfigs(d.Format) {
 			// real reader types (optional interfaces: Seeker, ByteReader, WriterTo, ReaderAt, *os.File) against
 			// the simulated source delivering everything at once: the result is a function of the bytes alone
 			if key := Key64(dh, reader, "real-readers"); cfg.Mine(key) {
@@ -331,8 +331,12 @@ func RunC17(cfg Config) (*ShardResult, error) {
 			}
 			for _, medium := range mediaFor(d.Format) {
 				var ref *canon.Outcome
-				for _, p := range plans {
+				for pi, p := range plans {
 					p.Medium = medium
+					// quick tier: the secondary configurations of a format (callbacks, PID-only, page-only) take every third single split
+					if cfg.Tier != "thorough" && ri >= 2 && p.Name == "split" && pi%3 != 0 {
+						continue
+					}
 					key := Key64(dh, reader, planKey(p))
 					if !cfg.Mine(key) {
 						continue
